@@ -46,6 +46,7 @@ type Eng struct {
 type globalFact struct {
 	immutable  bool
 	nonNilErr  bool
+	nonNilRef  bool
 	constInit  *ssa.Const
 }
 
@@ -95,6 +96,8 @@ func (e *Eng) globalFactOf(g *ssa.Global) *globalFact {
 				}
 			case *ssa.Const:
 				gf.constInit = v
+			case *ssa.MakeMap, *ssa.MakeChan, *ssa.Alloc, *ssa.MakeClosure:
+				gf.nonNilRef = true
 			}
 		}
 	}
@@ -253,6 +256,14 @@ func (e *Eng) verifyFunc(fn *ssa.Function, sp *FuncSpec, known *knownFindings) *
 		}
 		r.assume(st, f)
 		reqs = append(reqs, f)
+	}
+	for _, c := range sp.TypeInvs {
+		f, err := cx.boolExpr(c.Expr)
+		if err != nil {
+			e.bindError(sp, c, err)
+			continue
+		}
+		r.assume(st, f)
 	}
 	// axioms
 	for _, ax := range e.specs.Axioms {
